@@ -47,13 +47,15 @@ impl LoopCampaign {
 
   pub fn generate(&self, seed: u64, thorough: bool) -> CaseB {
     let mut rng = Rng::new(seed);
+    // one random-layout case in 48 has a wide shape (see gen_wide_layout), with up to 12 keys held
+    let wide = matches!(self.source, SourceB::Random) && crate::rng::mix(seed, 0x71de2) % 48 == 0;
     let (layout, name) = match self.source {
       SourceB::Shipped => { let n = &self.shipped[rng.below(self.shipped.len())]; (n.layout.clone(), n.name.clone()) }
       SourceB::Random => {
         let o = LayoutOpts { weird: rng.chance(1, 5), related: rng.chance(1, 2), dense: rng.chance(1, 6), absorbing: rng.chance(1, 3), norepeat: rng.chance(1, 2), special: self.force_special || rng.chance(2, 3), max_map: if thorough { rng.range(1, 6) } else { rng.range(1, 4) }, big: thorough && rng.chance(1, 3), edge_times: true };
         let mut tries = 0;
         loop {
-          let mut l = if rng.chance(1, 4) { gen_motif_layout(&mut rng, &o) } else { gen_layout(&mut rng, &o) };
+          let mut l = if wide { gen_wide_layout(&mut rng, &o) } else if rng.chance(1, 4) { gen_motif_layout(&mut rng, &o) } else { gen_layout(&mut rng, &o) };
           if self.force_special && !l.mappings.iter().any(|m| matches!(m.repeat, Repeat::Special { .. })) && !l.mappings.is_empty() {
             // make sure at least one mapping repeats specially; its repeat keys may overlap keys that can be held
             let i = rng.below(l.mappings.len());
@@ -69,6 +71,7 @@ impl LoopCampaign {
       }
     };
     let mut ho = swarm_hist(&mut rng, false, true, false, false);
+    if wide && !ho.crowd { ho.max_held = rng.range(4, 12); ho.intents = rng.range(1, 3); }
     // one run in eight is a burst: a long history that arrives in a few big batches, so a single
     // readiness notification covers tens of events
     let bursty = rng.chance(1, 8);
